@@ -121,6 +121,7 @@ func (fr *Frame) havocCallee(callee *ssa.Function, argVals ...ssa.Value) {
 	ex := fr.ex
 	src := ex.mods.info(callee)
 	if src.all {
+		ex.vc.note("havoc-all at call to " + ex.fnKey(callee) + ": " + ex.mods.whyAll(callee))
 		ex.havocAll(fr.cur)
 		return
 	}
@@ -446,7 +447,10 @@ func (fr *Frame) builtin(ins ssa.Instruction, b *ssa.Builtin, cc *ssa.CallCommon
 		if x.S.K == KString {
 			return &Val{T: vc.define("append", SString, "(str.++ "+x.T+" "+y.T+")"), S: SString}
 		}
-		return &Val{T: vc.define("append", x.S, "(seq.++ "+x.T+" "+y.T+")"), S: x.S}
+		r := &Val{T: vc.define("append", x.S, "(seq.++ "+x.T+" "+y.T+")"), S: x.S}
+		// sound sequence lemma through the bridging function: elements of a concatenation
+		vc.assume("(forall ((k Int)) (! (=> (and (<= 0 k) (< k (seq.len " + r.T + "))) (= " + vc.nth(r.T, "k", x.S.Elem) + " (ite (< k (seq.len " + x.T + ")) " + vc.nth(x.T, "k", x.S.Elem) + " " + vc.nth(y.T, "(- k (seq.len "+x.T+"))", x.S.Elem) + "))) :pattern (" + vc.nth(r.T, "k", x.S.Elem) + ")))")
+		return r
 	case "copy":
 		vc.unsupported("copy() builtin in " + fr.key)
 		return fr.havocVal("copy", SInt)
